@@ -124,12 +124,9 @@ func verifLexLexer(text string, opts LexerOptions) (res string) {
 	return sb.String()
 }
 
-// P1 field (compared with the model of the TL1 parser, Lex/LexParse1Model.v): ok | tokerr | panic |
-// err:<first 18 bytes of the innermost message>@outer@begin@end
-func verifLexP1(parser int, front string, panicked bool, err error) string {
-	if parser != 1 {
-		return "-"
-	}
+// PM field (compared with the parser models Lex/LexParse1Model.v and Lex/LexParse2Model.v): ok | tokerr | panic |
+// err:<first 30 bytes of the innermost message, variable parts cut>@outer@begin@end
+func verifLexPM(front string, panicked bool, err error) string {
 	if panicked {
 		return "panic"
 	}
@@ -143,12 +140,18 @@ func verifLexP1(parser int, front string, panicked bool, err error) string {
 	if !errors.As(err, &pe) {
 		return "err:notparseerror"
 	}
-	return "err:" + verifLexPrefix(pe.Err.Error(), 18) + "@" + verifLexPos(pe.Pos.Outer) + "@" + verifLexPos(pe.Pos.Begin) + "@" + verifLexPos(pe.Pos.End)
+	m := pe.Err.Error()
+	for _, p := range []string{"unexpected type category ", "strconv.ParseUint"} {
+		if strings.HasPrefix(m, p) {
+			m = p
+		}
+	}
+	return "err:" + verifLexPrefix(m, 30) + "@" + verifLexPos(pe.Pos.Outer) + "@" + verifLexPos(pe.Pos.Begin) + "@" + verifLexPos(pe.Pos.End)
 }
 
 func verifLexParse(text string, parser int, opts LexerOptions) (front string, res string) {
 	front, res, panicked, err := verifLexParse0(text, parser, opts)
-	return front + " P1=" + verifLexP1(parser, front, panicked, err), res
+	return front + " PM=" + verifLexPM(front, panicked, err), res
 }
 
 func verifLexParse0(text string, parser int, opts LexerOptions) (front string, res string, panicked bool, err error) {
